@@ -1,6 +1,6 @@
 (* C17 — evaluator for generated cases: a host tree + mounts, and what the real copier.Copy() produced (read back
    through a collection filesystem as a sorted listing).
-   check_case: 0 ok; +1 model/implementation mismatch; +2 specification violated; +4 F11, +8 F16, +16 F17, +32 F18, +64 F19 (the
+   check_case: 0 ok; +1 model/implementation mismatch; +2 specification violated; +4 F11, +8 F16, +16 F18 (the
    violation lies inside the trigger predicate of that known finding). *)
 From Coq Require Import NArith List Ascii String Bool.
 From AV Require Import lib.Str model.C10_manifest model.C10_ranges model.C10_fs model.C10_gomanifest model.C17_model.
@@ -48,7 +48,7 @@ Definition spec_b (c : case) : bool :=
 Definition check_case (c : case) : N :=
   let w := snd (copy_model (c_cfg c) (st_of c)) in
   ((if model_b c then 0 else 1) +
-   (if spec_b c then 0 else if w_f11 w then 4 else if w_f16 w then 8 else if w_f17 w then 16 else if w_f18 w then 32 else if w_f19 w then 64 else 2))%N.
+   (if spec_b c then 0 else if w_f11 w then 4 else if w_f16 w then 8 else if w_f18 w then 16 else 2))%N.
 Fixpoint failing_from (i : N) (cs : list case) : list (N * N) :=
   match cs with
   | [] => []
